@@ -176,3 +176,26 @@ Check known_class_narrowed :
     Forall (op_wf f) ops -> Forall (ctr_disciplined f mx) ops ->
     Known_C15_session_touch c shard ops -> Known_C15_two_sessions (f c) shard ops.
 Print Assumptions known_class_narrowed.
+
+(* Outside the known class PrefixLimitExceeded is answered to a session only when it
+   really holds its maximum number of prefixes (no new prefix is rejected early). *)
+Theorem limit_signalled_only_when_full :
+  forall f mx shard ops c s net rpid nh a filt nhinv,
+    Forall (op_wf f) ops -> Forall (ctr_disciplined f mx) ops -> mx c < 4294967296 ->
+    session_alive (f c) c false ops = true ->
+    ~ Known_C15_session_touch c shard ops ->
+    let t := run (empty_table shard) ops in
+    s_tok s = c ->
+    snd (step t (Insert s net rpid nh a filt nhinv (Some (mx c, c)))) = true ->
+    sess_recount t c = mx c.
+Proof. exact C15_limit_signalled_only_when_full. Qed.
+Check limit_signalled_only_when_full :
+  forall f mx shard ops c s net rpid nh a filt nhinv,
+    Forall (op_wf f) ops -> Forall (ctr_disciplined f mx) ops -> mx c < 4294967296 ->
+    session_alive (f c) c false ops = true ->
+    ~ Known_C15_session_touch c shard ops ->
+    let t := run (empty_table shard) ops in
+    s_tok s = c ->
+    snd (step t (Insert s net rpid nh a filt nhinv (Some (mx c, c)))) = true ->
+    sess_recount t c = mx c.
+Print Assumptions limit_signalled_only_when_full.
